@@ -157,15 +157,13 @@ def menu(sm, tier="quick"):
         {"fields": [["Query", "old_field"], ["Node", "peer_node"]]},
     ]
     if tier == "thorough":
-        singles = [h for h in hides]
-        for i in range(len(singles)):
-            for j in range(i + 1, len(singles)):
-                if (i * 7 + j) % 9 == 0:  # a fixed ninth of all pairs (deterministic), plus the hand-picked ones
-                    merged = {}
-                    for h in (singles[i], singles[j]):
-                        for k, v in h.items():
-                            merged.setdefault(k, []).extend(v)
-                    pairs.append(merged)
+        # every pair of types hidden together (cascades through unions, interfaces, arguments)
+        names = [t["name"] for t in sm["types"]]
+        for i in range(len(names)):
+            for j in range(i + 1, len(names)):
+                p = {"types": [names[i], names[j]]}
+                if p not in pairs:
+                    pairs.append(p)
     for h in hides + pairs:
         ops.append(dict({"op": "hide"}, **copy.deepcopy(h)))
     for h in hides:
